@@ -1,0 +1,9 @@
+// SPDX-FileCopyrightText: 2026 The Pion community <https://pion.ly>
+// SPDX-License-Identifier: MIT
+
+//go:build !verif
+
+package ice
+
+// verifTakeContact is a verification hook; without the verif build tag it is a no-op.
+func verifTakeContact(*Agent, func()) bool { return false }
